@@ -212,6 +212,22 @@ engine_a("C42",
     quick=tier(3000, 35),
 )
 
+RELAY_RULE = "one run = 3-5 nodes: node 0 is lighthouse and relay, optionally the last node is a second relay, every endpoint pair lacks a direct underlay path (topology, not a fault), 60-160 marked workload packets between endpoints, transport faults, rehandshakes/closes/restarts/stalls on all legs, plus 20-80 byzantine events; distinct = distinct abstract trace hash; non-trivial = more than 5 relay forwards were judged and more than 3 workload packets were delivered end to end"
+
+engine_a("C15",
+    scenarios=["C15.relay"],
+    technique="deterministic whole-overlay simulation of relayed tunnels with a byzantine relay (re-sends captured inner packets modified, replayed or under another relay index, authenticated with its own tunnel keys); plaintext-marker scan of every wire datagram and relay tun; byte-exact end-to-end delivery check",
+    rule=RELAY_RULE,
+    level_text="Seeded search over relayed-traffic histories: (i) no uniquely marked application payload ever appears in clear in any datagram on the simulated wire or on a relay's tun; (ii) every marked packet a tun delivers is byte-identical to what the origin's application sent, arrives only at its destination, at most once, carrying the origin's address, whatever relay index the relay used; (iii) a packet the relay modified (inner body/header flips, truncation, splice, fresh counter) is never delivered, never answered, and leaves the addressed end-to-end tunnel's receive state (replay window, remote, liveness, relay state) unchanged. Evidence, not proof.",
+)
+
+engine_a("C39",
+    scenarios=["C39.relay"],
+    technique="deterministic whole-overlay simulation with byzantine certified endpoints sending crafted relay control messages and relayed data on foreign indexes, am_relay toggled by reload; every forward a node performs is judged against the control messages it really received (decrypted by the harness with the receiving tunnel's key) and against relay-record invariants",
+    rule=RELAY_RULE,
+    level_text="Seeded search over relay negotiation/forwarding histories: a node emits a forwarded relay datagram only while am_relay is on, only for a packet that arrived on a relay index owned by a live tunnel, only toward a node other than itself and the source, and only if it had received both an authenticated CreateRelayRequest and the matching CreateRelayResponse for that pair; relay records never change type, local index or peer address, never return to PeerRequested, and every relay index points at a live tunnel that owns it. A strict state-transition relation is deliberately not enforced (the code legitimately moves between Requested/Established/Disestablished in most directions). Evidence, not proof.",
+)
+
 NOT_APPLICABLE = {
     "C03": "pure encode/decode round trip over input bytes; no clock, schedule, fault or second party for a simulator to control",
     "C04": "pure function of (certificate to sign, signer); offline CLI; nothing to schedule or fault",
